@@ -82,6 +82,15 @@ Definition copy_dst : consumer :=
 Definition write_string : consumer :=
   mkC (s "_io_Writer") [s "Write"] [(s "StringWriter", [s "WriteString"]); (s "Writer", [s "Write"])].
 
+(** net/http: a ResponseWriter may also be a Hijacker (composed wrapper of wrapper-composed.go) *)
+Definition http_rw : consumer :=
+  mkC (s "_net_http_ResponseWriter") (map s ["Header"; "Write"; "WriteHeader"]%string)
+      [(s "Hijacker", [s "Hijack"]); (s "ResponseWriter", map s ["Header"; "Write"; "WriteHeader"]%string)].
+
+(** In all of these [impl] is the FULL method set of the interpreted value as getWrapper / implements see
+    it through methods(): interpreted methods, methods promoted from embedded interpreted structs, and
+    methods promoted from embedded COMPILED types (e.g. WriteTo of an embedded *bytes.Buffer). *)
+
 (** the print functions that take interface{} operands *)
 Definition print_fns : list str :=
   map s ["fmt.Print"; "fmt.Printf"; "fmt.Println"; "fmt.Sprint"; "fmt.Sprintf"; "fmt.Sprintln";
@@ -125,7 +134,9 @@ Definition consumer_ok (tbl : mtable) (c : consumer) : bool :=
 Definition registered_ok (tbl : mtable) : bool :=
   forallb (fun fn => match assoc fn tbl with Some _ => true | None => false end) (s "json.Marshal" :: print_fns)
   && forallb (fun fn => forallb (consumer_ok tbl) (fmt_consumers fn)) print_fns
-  && consumer_ok tbl json_consumer && consumer_ok tbl copy_src && consumer_ok tbl copy_dst.
+  && consumer_ok tbl json_consumer && consumer_ok tbl copy_src && consumer_ok tbl copy_dst && consumer_ok tbl http_rw
+  && forallb (fun k => match assoc k tbl with Some (_ :: _) => true | _ => false end)
+       (map s ["_io_Reader"; "_io_Writer"; "_net_http_ResponseWriter"]%string).
 
 (** the order of two interfaces in the list registered for a function *)
 Fixpoint index_of (k : str) (ws : list (str * list str)) (i : nat) : option nat :=
